@@ -1,8 +1,8 @@
 /-
 C14 - probed system description and derived machine model match the machine.
-Property theorems (helper lemmas are local and private).
+Property theorems; long proofs live in RigModel/Lemmas/C14.lean.
 -/
-import RigModel.Model.C14
+import RigModel.Lemmas.C14
 set_option linter.unusedSimpArgs false
 set_option linter.unusedVariables false
 
@@ -16,5 +16,52 @@ theorem consts_documented :
     APPSTATE_IDLE = 15 ∧ validState APPSTATE_IDLE = true ∧ SPINNAKER_RTR_P2P = 0xE1010000 ∧
     CMD_INFO = 31 ∧ VCPU_SIZE = 128 := by
   decide
+
+/-- **Chip information.** Decoding the `info` reply the machine specification builds for a chip
+returns exactly the chip's core count, the states of its first `cores` core slots, its working
+links, the three largest-free figures, the Ethernet flag, IP address and nearest Ethernet chip -
+for every value of every field over its full width. -/
+theorem chipinfo_roundtrip (c : ChipState) (h : c.WF) : decodeInfo (infoReply c) = .ok (chipView c) :=
+  chipinfo_roundtrip_lem c h
+
+/-- non-vacuity: a chip with every field at its maximum is well formed -/
+example : ({ cores := 18, states := List.replicate 18 15, links := [0, 1, 2, 3, 4, 5], sdram := 4294967295,
+             sram := 4294967295, rtr := 2047, ethUp := true, ip0 := 255, ip1 := 255, ip2 := 255, ip3 := 255,
+             ethX := 255, ethY := 255 } : ChipState).WF := by
+  refine ⟨by decide, by decide, ?_, by decide, by decide, by decide, by decide, by decide, by decide, by decide,
+    by decide, by decide⟩
+  intro s hs
+  simp only [List.mem_replicate] at hs
+  rw [hs.2]; decide
+
+/-- **P2P table.** For every table `f` of 3-bit entries and all dimensions up to 255 x 255, reading
+the table memory laid out by the machine specification (column `x` in the 32 words from
+`SPINNAKER_RTR_P2P + 128 x`, row `y` in word `y / 8` at bits `3 (y mod 8)`) yields exactly the entry
+`f x y` for every `x < w`, `y < h`, column by column, and nothing else. -/
+theorem p2p_roundtrip (f : Nat → Nat → Nat) (hf : ∀ x y, f x y < 8) (rd : Rd) (w h : Nat)
+    (hw : w ≤ 255) (hh : h ≤ 255)
+    (hrd : ∀ a n, SPINNAKER_RTR_P2P ≤ a → rd a n = readMem (p2pMem f) a n) :
+    p2pTableOfDims rd (w * 256 + h) = .ok (p2pSpecTable f (List.range w) h) :=
+  p2p_roundtrip_dims_lem f hf rd w h hw hh hrd
+
+/-- membership form: the table lists `(x, y) ↦ r` iff the chip is inside the dimensions and `r` is
+its entry -/
+theorem p2p_table_mem (f : Nat → Nat → Nat) (w h x y r : Nat) :
+    ((x, y), r) ∈ p2pSpecTable f (List.range w) h ↔ x < w ∧ y < h ∧ r = f x y := by
+  simp only [p2pSpecTable, List.mem_flatMap, List.mem_map, List.mem_range, Prod.mk.injEq]
+  constructor
+  · rintro ⟨c, hc, r', hr', ⟨rfl, rfl⟩, rfl⟩
+    exact ⟨hc, hr', rfl⟩
+  · rintro ⟨hx, hy, rfl⟩
+    exact ⟨x, hx, y, hy, ⟨rfl, rfl⟩, rfl⟩
+
+/-- the dimension register is read as a little-endian half word -/
+theorem p2p_dims_read (rd : Rd) (w h : Nat) (hw : w ≤ 255) (hh : h ≤ 255)
+    (hd : rd (SV_BASE + SV_P2P_DIMS_OFF) SV_P2P_DIMS_SIZE = le16 (w * 256 + h)) :
+    readInt rd (SV_BASE + SV_P2P_DIMS_OFF) SV_P2P_DIMS_SIZE = .ok (w * 256 + h) := by
+  have e : leVal (le16 (w * 256 + h)) = w * 256 + h := by
+    simp only [le16, leVal]; omega
+  simp only [readInt, hd, e]
+  rfl
 
 end Rig.C14
